@@ -515,20 +515,21 @@ impl Hypercore {
                 {
                     Either::Right(value) => value,
                     Either::Left(instructions) => {
-                        let infos = self.storage.read_infos_to_vec(&instructions).await?;
-                        match self.tree.byte_offset_in_changeset(
-                            block.index,
-                            &changeset,
-                            Some(&infos),
-                        )? {
-                            Either::Right(value) => value,
-                            Either::Left(_) => {
-                                return Err(HypercoreError::InvalidOperation {
-                                    context: format!(
-                                        "Could not read offset for index {} from tree",
-                                        block.index
-                                    ),
-                                });
+                        // Nodes found in the node cache on one round may have been evicted
+                        // by the next, so keep reading until all needed ones are collected.
+                        let mut instructions = instructions;
+                        let mut infos: Vec<StoreInfo> = vec![];
+                        loop {
+                            infos.extend(self.storage.read_infos_to_vec(&instructions).await?);
+                            match self.tree.byte_offset_in_changeset(
+                                block.index,
+                                &changeset,
+                                Some(&infos),
+                            )? {
+                                Either::Right(value) => break value,
+                                Either::Left(new_instructions) => {
+                                    instructions = new_instructions;
+                                }
                             }
                         }
                     }
@@ -713,15 +714,21 @@ impl Hypercore {
         match self.tree.verify_proof(proof, &self.key_pair.public, None)? {
             Either::Right(value) => Ok(value),
             Either::Left(instructions) => {
-                let infos = self.storage.read_infos_to_vec(&instructions).await?;
-                match self
-                    .tree
-                    .verify_proof(proof, &self.key_pair.public, Some(&infos))?
-                {
-                    Either::Right(value) => Ok(value),
-                    Either::Left(_) => Err(HypercoreError::InvalidOperation {
-                        context: "Could not verify proof from tree".to_string(),
-                    }),
+                let mut instructions = instructions;
+                let mut infos: Vec<StoreInfo> = vec![];
+                loop {
+                    infos.extend(self.storage.read_infos_to_vec(&instructions).await?);
+                    match self
+                        .tree
+                        .verify_proof(proof, &self.key_pair.public, Some(&infos))?
+                    {
+                        Either::Right(value) => {
+                            return Ok(value);
+                        }
+                        Either::Left(new_instructions) => {
+                            instructions = new_instructions;
+                        }
+                    }
                 }
             }
         }
